@@ -311,6 +311,43 @@ func repetitionSeeds() []seed {
 				Children: []*gen.Box{gen.PRVWBox([]byte("\xff\xd8tiny\xff\xd9"))}})
 		}
 		add("cr3-400-small-preview-boxes-inside-moov", "cr3", gen.EncodeBoxes(top).B)
+		// ... and tens of thousands of preview boxes whose image is empty or one byte: the unit is 56 bytes
+		for _, img := range []string{"", "x"} {
+			top = gen.CR3(p, 0)
+			moov = top[1]
+			for i := 0; i < 20000; i++ {
+				moov.Children = append(moov.Children, &gen.Box{Type: "uuid", UUID: gen.UUIDCr3Preview, Payload: &gen.Doc{B: []byte{0, 0, 0, 0, 0, 0, 0, 1}},
+					Children: []*gen.Box{gen.PRVWBox([]byte(img))}})
+			}
+			add(fmt.Sprintf("cr3-20000-preview-boxes-of-%d-image-bytes", len(img)), "cr3", gen.EncodeBoxes(top).B)
+		}
+	}
+	{ // XMP packets with thousands of items in one list, thousands of lists, thousands of attributes
+		head := `<x:xmpmeta xmlns:x="adobe:ns:meta/"><rdf:RDF xmlns:rdf="http://www.w3.org/1999/02/22-rdf-syntax-ns#"><rdf:Description rdf:about="" xmlns:dc="http://purl.org/dc/elements/1.1/" xmlns:xmp="http://ns.adobe.com/xap/1.0/" xmlns:tiff="http://ns.adobe.com/tiff/1.0/"`
+		tail := `</rdf:Description></rdf:RDF></x:xmpmeta>`
+		for _, list := range [][2]string{{"subject", "Bag"}, {"creator", "Seq"}, {"title", "Alt"}, {"description", "Alt"}, {"rights", "Alt"}} {
+			var b bytes.Buffer
+			b.WriteString(head + "><dc:" + list[0] + "><rdf:" + list[1] + ">")
+			for i := 0; i < 4000; i++ {
+				fmt.Fprintf(&b, "<rdf:li>k%d</rdf:li>", i)
+			}
+			b.WriteString("</rdf:" + list[1] + "></dc:" + list[0] + ">" + tail)
+			add("xmp-4000-items-in-dc-"+list[0], "xmp", b.Bytes())
+		}
+		var b bytes.Buffer
+		b.WriteString(head + ">")
+		for i := 0; i < 4000; i++ {
+			fmt.Fprintf(&b, "<dc:subject><rdf:Bag><rdf:li>k%d</rdf:li></rdf:Bag></dc:subject>", i)
+		}
+		b.WriteString(tail)
+		add("xmp-4000-dc-subject-lists", "xmp", b.Bytes())
+		b.Reset()
+		b.WriteString(head)
+		for i := 0; i < 4000; i++ {
+			fmt.Fprintf(&b, " tiff:Make=\"m%d\" xmp:Label=\"l%d\" xmp:CreateDate=\"not-a-date-%d\"", i, i, i)
+		}
+		b.WriteString("/>" + tail[len("</rdf:Description>"):])
+		add("xmp-12000-repeated-attributes", "xmp", b.Bytes())
 	}
 	{ // item-based HEIF / AVIF whose meta box holds thousands of payload-less children of every handled type
 		for _, typ := range []string{"hdlr", "iinf", "iref", "pitm", "iloc", "idat", "iprp", "free", "zzzz"} {
